@@ -157,15 +157,19 @@ PROPS = {
     ),
     "C11": dict(
         level="exploration",
-        modules=["specs.vlandb"],
+        modules=["specs.vlandb", "specs.vlanlogic"],
         bounded=[("bounded.c11", "run")],
         assumes=["A3", "A7", "A9"],
         trusted=["collapse_vlandb (and the cisco / huawei wrappers, chunk_len == 0) is proved: result == rendering of the ranges rg(S) of "
                  "S = sorted(set(vlans)), with the lemma that a VLAN is denoted by rg(S) iff it is a member of S (so expanding the "
                  "collapsed list gives back exactly the set) and that every range has lo <= hi; sorted(set()) is an opaque function "
                  "with an assumed axiom (strictly increasing), '%' formatting and str(int) are opaque (A7)",
-                 "huawei_expand_vlandb / cisco_expand_vlandb (int() of substrings), _process_vlandb / vlan_diff / the swtrunk logic "
-                 "functions and the chunking comprehension are not under a discharged contract: bounded only"],
+                 "huawei _process_vlandb (single / multi / multi_all) and _parse_vlancfg_actions are proved: the undo command is built from "
+                 "exactly the VLANs of the removed lines that no added line has (old - new), the add command from exactly new - old, in "
+                 "that order, with the `all` / bare-reverse shortcuts only when nothing is added - relative to _parse_vlancfg (line -> "
+                 "prefix, VLAN set), collapse_vlandb (proved in specs.vlandb) and _chunked, which are opaque here",
+                 "huawei_expand_vlandb / cisco_expand_vlandb (int() of substrings), huawei vlan_diff, the cisco _process_vlandb / swtrunk "
+                 "logic and the chunking are not under a discharged contract: bounded only"],
     ),
     "C16": dict(
         level="exploration",
